@@ -42,7 +42,9 @@ import (
 	registry "github.com/oasisprotocol/oasis-core/go/registry/api"
 	roothash "github.com/oasisprotocol/oasis-core/go/roothash/api"
 	"github.com/oasisprotocol/oasis-core/go/roothash/api/commitment"
+	"github.com/oasisprotocol/oasis-core/go/runtime/host"
 	"github.com/oasisprotocol/oasis-core/go/runtime/host/protocol"
+	"github.com/oasisprotocol/oasis-core/go/runtime/txpool"
 	staking "github.com/oasisprotocol/oasis-core/go/staking/api"
 	"github.com/oasisprotocol/oasis-core/go/storage/mkvs"
 	"github.com/oasisprotocol/oasis-core/go/storage/mkvs/checkpoint"
@@ -1025,6 +1027,48 @@ func buildTargets() []*target {
 			return "decoded"
 		}})
 
+	// ---------------------------------------------------------------- runtime host protocol: consumers of a response
+	// What the node DOES with a decoded response frame of the (untrusted) runtime: the transaction pool's
+	// check worker consumes a RuntimeCheckTxBatchResponse (helpers.go richRuntime.CheckTx -> txpool.checkTxBatch).
+	okRes := func(i int) protocol.CheckTxResult {
+		return protocol.CheckTxResult{Meta: &protocol.CheckTxMetadata{Priority: uint64(10 + i), Sender: []byte(fmt.Sprintf("sender-%d", i)), SenderSeq: uint64(i), SenderStateSeq: 0}}
+	}
+	checkBodies := []*protocol.Body{
+		{RuntimeCheckTxBatchResponse: &protocol.RuntimeCheckTxBatchResponse{Results: []protocol.CheckTxResult{okRes(0), okRes(1), okRes(2)}}},
+		{RuntimeCheckTxBatchResponse: &protocol.RuntimeCheckTxBatchResponse{Results: []protocol.CheckTxResult{okRes(0),
+			{Error: protocol.Error{Module: "m", Code: 2, Message: "bad tx"}}, okRes(0)}}},
+	}
+	var checkSeeds [][]byte
+	for _, b := range checkBodies {
+		checkSeeds = append(checkSeeds, cbor.Marshal(b))
+	}
+	add(&target{name: "rhp-checktx", boundary: "runtime host protocol frames (a check-tx batch response consumed by the transaction pool's check worker)", cbor: true,
+		path:  "cbor.Unmarshal(protocol.Body) as the connection codec does -> richRuntime.CheckTx (shape checks) -> txPool.checkTxBatch (verif export NewVerifCheckPool)",
+		seeds: checkSeeds,
+		run: func(data []byte) string {
+			var body protocol.Body
+			if err := cbor.Unmarshal(data, &body); err != nil {
+				return rej(err, "rejected:decode")
+			}
+			pool := txpool.NewVerifCheckPool(w.rtID, &stubRuntime{answer: &body})
+			for i := 0; i < 3; i++ {
+				if err := pool.Submit([]byte(fmt.Sprintf("verif-tx-%d", i))); err != nil {
+					panic(err)
+				}
+			}
+			c, cancel := context.WithTimeout(ctxBg, 10*time.Second)
+			defer cancel()
+			panicked, err := pool.CheckBatch(c)
+			if panicked != "" {
+				panic("txpool check worker: " + panicked)
+			}
+			if err != nil {
+				return "rejected:response-shape"
+			}
+			_, queued := pool.Sizes()
+			return fmt.Sprintf("consumed:queued-%d", queued)
+		}})
+
 	// ---------------------------------------------------------------- runtime host protocol: live connection
 	streams := liveSeeds(w)
 	add(&target{name: "rhp-live-host", boundary: "runtime host protocol frames (live connection, node side: after InitHost, one host call outstanding)", live: true,
@@ -1216,3 +1260,18 @@ func rej(err error, class string) string {
 	lastErr = err
 	return class
 }
+
+
+// stubRuntime is a hosted runtime that answers every call with a fixed (untrusted) response body.
+type stubRuntime struct {
+	host.Runtime
+	answer *protocol.Body
+}
+
+func (r *stubRuntime) GetActiveVersion() (*version.Version, error) { return &version.Version{}, nil }
+
+func (r *stubRuntime) Call(context.Context, *protocol.Body) (*protocol.Body, error) {
+	return r.answer, nil
+}
+
+func (r *stubRuntime) Abort(context.Context, bool) error { return nil }
